@@ -215,6 +215,32 @@ pub mod spec {
         &&& comp_inert(pre, post)
     }
 
+    /// both ledgers still have item j
+    pub open spec fn both_present(a: State, b: State, j: int) -> bool {
+        0 <= j < a.item_state.len() && j < b.item_state.len() && present(a.item_state[j]) && present(b.item_state[j])
+    }
+
+    /// [s, e) is a run of items available in `pre` followed only by already consumed ones
+    pub open spec fn run_then_holes(pre: State, s: int, e: int) -> bool {
+        exists|m: int| #[trigger] run_split(pre, s, m, e)
+    }
+    pub open spec fn run_split(pre: State, s: int, m: int, e: int) -> bool {
+        s <= m <= e && (forall|i: int| s <= i < m ==> present(#[trigger] pre.item_state[i]))
+            && (forall|i: int| m <= i < e ==> !present(#[trigger] pre.item_state[i]))
+    }
+
+    /// C19: what an adjacent group consumed is exactly one contiguous run [s, e) of items that were all available
+    pub open spec fn consumed_block(pre: State, post: State, s: int, e: int) -> bool {
+        &&& forall|i: int| 0 <= i < pre.item_state.len() && present(#[trigger] pre.item_state[i]) && !present(post.item_state[i]) ==> s <= i < e
+        &&& forall|i: int| s <= i < e ==> present(#[trigger] pre.item_state[i]) && !present(post.item_state[i])
+    }
+
+    /// consumption happens only inside the scope the parser was given
+    pub open spec fn in_scope_only(pre: State, post: State) -> bool {
+        forall|i: int| 0 <= i < pre.item_state.len() && present(#[trigger] pre.item_state[i]) && !present(post.item_state[i])
+            ==> pre.scope.start <= i < pre.scope.end
+    }
+
     /// relational denotation of `parse_option(p, &mut len, args, catch)`:
     /// the inner parser runs once from `pre`; its value is kept iff something was consumed relative to `len0`;
     /// its failure is swallowed (state restored to `pre`) iff `catch`, or it is `Missing` and nothing was consumed,
@@ -582,6 +608,57 @@ pub mod lemmas {
         if lo < hi { lemma_count_presence(l1, l2, lo, hi - 1); }
     }
 
+    pub proof fn lemma_count_le(l: Seq<ItemState>, s: int, e: int)
+        requires s <= e,
+        ensures count_present(l, s, e) <= e - s,
+        decreases e - s,
+    {
+        if s < e { lemma_count_le(l, s, e - 1); }
+    }
+
+    pub proof fn lemma_count_full(l: Seq<ItemState>, s: int, e: int)
+        requires 0 <= s <= e <= l.len(), count_present(l, s, e) == e - s,
+        ensures forall|i: int| s <= i < e ==> present(#[trigger] l[i]),
+        decreases e - s,
+    {
+        if s < e {
+            lemma_count_le(l, s, e - 1);
+            lemma_count_full(l, s, e - 1);
+        }
+    }
+
+    pub proof fn lemma_count_all_present(l: Seq<ItemState>, s: int, e: int)
+        requires 0 <= s <= e <= l.len(), forall|i: int| s <= i < e ==> present(#[trigger] l[i]),
+        ensures count_present(l, s, e) == e - s,
+        decreases e - s,
+    {
+        if s < e { lemma_count_all_present(l, s, e - 1); }
+    }
+
+    pub proof fn lemma_count_split(l: Seq<ItemState>, s: int, m: int, e: int)
+        requires s <= m <= e,
+        ensures count_present(l, s, e) == count_present(l, s, m) + count_present(l, m, e),
+        decreases e - m,
+    {
+        if m < e { lemma_count_split(l, s, m, e - 1); }
+    }
+
+    pub proof fn lemma_count_holes(l: Seq<ItemState>, s: int, e: int)
+        requires forall|i: int| s <= i < e && 0 <= i < l.len() ==> !present(#[trigger] l[i]),
+        ensures count_present(l, s, e) == 0,
+        decreases e - s,
+    {
+        if s < e { lemma_count_holes(l, s, e - 1); }
+    }
+
+    pub proof fn lemma_count_mono(l1: Seq<ItemState>, l2: Seq<ItemState>, s: int, e: int)
+        requires l1.len() == l2.len(), forall|i: int| 0 <= i < l1.len() && !present(#[trigger] l1[i]) ==> !present(l2[i]),
+        ensures count_present(l2, s, e) <= count_present(l1, s, e),
+        decreases e - s,
+    {
+        if s < e { lemma_count_mono(l1, l2, s, e - 1); }
+    }
+
     /// marking conflicts keeps the ledger well formed and consumption monotone
     pub proof fn lemma_conflicts_saved(pre: State, w: State, l: State, win: usize, out: State)
         requires pre.wf(), w.wf(), step(pre, w), conflicts_saved(w, l, win, out),
@@ -651,7 +728,7 @@ pub mod real {
 //@@ end
 
 //@@ type src/item.rs | enum Item
-//@@ unit item.Item tags=
+//@@ unit item.Item tags= derive_clone
 //@@ end
 
 //@@ type src/meta.rs | enum Meta
@@ -1810,7 +1887,7 @@ impl State {
                 &&& forall|j: int| old(self).cur <= j < t.0 ==> !old(self).args.avail(j) // #candidates_in_command_line_order
                 &&& t.0 + t.1 <= old(self).args.items.len() && t.1 == old(self).width // #block_fits_on_the_line
                 &&& t.2.wf() && t.2.scope.start == t.0 && t.2.scope.end == old(self).args.items.len() // #sub_state_starts_at_the_candidate
-                &&& t.2.items == old(self).args.items && t.2.item_state == old(self).args.item_state
+                &&& t.2.items == old(self).args.items && t.2.item_state == old(self).args.item_state && t.2.comp_eq(*old(self).args)
                 &&& final(self).cur == t.0 + 1
             },
 //@@ loop 1
@@ -1821,6 +1898,168 @@ impl State {
                 self.args.scope.start <= self.cur,
                 forall|j: int| old(self).cur <= j < self.cur ==> !self.args.avail(j),
             decreases self.args.scope.end as int + 1 - self.cur as int,
+//@@ end
+
+
+// ---- adjacent groups (C19)
+//@@ type src/structs.rs | struct ParseAdjacent
+//@@ unit structs.ParseAdjacent tags=
+//@@ end
+
+impl Meta {
+    /// assumed: bpaf usage invariant ("adjacent should start with a required argument", enforced by check_invariants);
+    /// the item itself is uninterpreted
+    #[verifier::external_body]
+    pub fn first_item(meta: &Meta) -> (r: Option<&Item>)
+        ensures r is Some,
+    { unimplemented!() }
+}
+
+impl State {
+    /// assumed contract (iterator-adapter code; checked within a bound by Kani unit K01.adjacently_available_from)
+    #[verifier::external_body]
+    pub fn adjacently_available_from(&self, start: usize) -> (r: Range<usize>)
+        requires start <= self.item_state.len(),
+        ensures
+            r.start == start && start <= r.end <= self.item_state.len(),
+            forall|i: int| start <= i < r.end ==> present(#[trigger] self.item_state[i]),
+            r.end < self.item_state.len() ==> !present(self.item_state[r.end as int]),
+    { unimplemented!() }
+
+    /// assumed contract (iterator-adapter code; checked within a bound by Kani unit K01.adjacent_scope)
+    #[verifier::external_body]
+    pub fn adjacent_scope(&self, original: &State) -> (r: Option<Range<usize>>)
+        requires self.item_state.len() == original.item_state.len(), self.scope.start <= self.item_state.len(), self.items.len() == self.item_state.len(),
+        ensures
+            r matches Some(sc) ==> {
+                &&& sc.start == self.scope.start && sc.start <= sc.end < self.item_state.len()
+                &&& both_present(*self, *original, sc.end as int)
+                &&& forall|j: int| sc.start <= j < sc.end ==> !#[trigger] both_present(*self, *original, j)
+                &&& sc != self.scope
+            },
+            r is None ==> {
+                ||| self.items.len() == 0
+                ||| forall|j: int| self.scope.start <= j ==> !#[trigger] both_present(*self, *original, j)
+                ||| (both_present(*self, *original, self.scope.end as int) && self.scope.start <= self.scope.end
+                     && forall|j: int| self.scope.start <= j < self.scope.end ==> !#[trigger] both_present(*self, *original, j))
+            },
+    { unimplemented!() }
+}
+
+//@@ fn src/structs.rs | impl Parser for ParseAdjacent | fn eval
+//@@ unit structs.ParseAdjacent.eval tags=C19,C05,C10,C04 loops=2 desugar_for=1
+//@@ members
+    /// the inner parser of a group keeps the scope it is given and consumes only inside it (true for sequences of flags,
+    /// arguments and positionals; an assumption about the group's members, see DESIGN.md)
+    open spec fn pwf(&self) -> bool {
+        &&& self.inner.pwf()
+        &&& forall|pre: State, r: Result<T, Error>, post: State| #[trigger] self.inner.rel(pre, r, post) && pre.wf() && step(pre, post)
+                ==> post.scope == pre.scope && in_scope_only(pre, post)
+    }
+    /// success: the scope is handed back unchanged and what was consumed is one contiguous run of previously available
+    /// items inside it; failure: the scope is handed back unchanged as well
+    open spec fn rel(&self, pre: State, r: Result<T, Error>, post: State) -> bool {
+        &&& post.scope == pre.scope // #scope_restored
+        &&& r is Ok ==> exists|s: int, e: int| pre.scope.start <= s <= e && #[trigger] consumed_block(pre, post, s, e) // #one_contiguous_block
+        &&& r is Ok ==> forall|i: int| 0 <= i < pre.item_state.len() && present(#[trigger] pre.item_state[i]) && !present(post.item_state[i]) ==> i < pre.scope.end // #block_inside_the_scope
+    }
+//@@ loop 1
+            invariant
+                self.pwf(),
+                *args == *old(args), args.wf(),
+                original_scope == args.scope,
+                verif_it_1.args == *args, verif_it_1.args.scope.start <= verif_it_1.cur, 1 <= verif_it_1.width <= 2,
+                best_args.wf(), step(*old(args), best_args),
+            decreases args.scope.end as int + 1 - verif_it_1.cur as int,
+//@@ preloop 2
+let ghost mut g_retried = false;
+proof {
+    let l = args.item_state@;
+    lemma_count_le(l, start as int, original_scope.end as int);
+    if original_scope.end - start > before {
+        // some item of [start, scope end) is already consumed: the scope was trimmed to the run of available items from `start`
+        if this_arg.scope.end >= original_scope.end {
+            lemma_count_split(l, start as int, original_scope.end as int, this_arg.scope.end as int);
+            assert forall|i: int| start <= i < original_scope.end implies present(#[trigger] l[i]) by {}
+            assert(count_present(l, start as int, original_scope.end as int) == original_scope.end - start) by {
+                lemma_count_all_present(l, start as int, original_scope.end as int);
+            }
+        }
+        assert(run_split(*args, start as int, this_arg.scope.end as int, this_arg.scope.end as int));
+    } else {
+        lemma_count_full(l, start as int, original_scope.end as int);
+        assert(run_split(*args, start as int, original_scope.end as int, original_scope.end as int));
+    }
+}
+//@@ loop 2
+                invariant_except_break
+                    this_arg.wf(), this_arg.items == args.items, this_arg.item_state == args.item_state,
+                    this_arg.scope.start == start, this_arg.comp_eq(*args),
+                    run_then_holes(*args, start as int, this_arg.scope.end as int),
+                    forall|i: int| original_scope.end <= i < this_arg.scope.end ==> !present(#[trigger] args.item_state[i]),
+                    g_retried ==> this_arg.scope.end < args.item_state.len() && present(args.item_state[this_arg.scope.end as int]),
+                invariant
+                    self.pwf(),
+                    *args == *old(args), args.wf(), original_scope == args.scope,
+                    best_args.wf(), step(*old(args), best_args),
+                    verif_it_1.args == *args, verif_it_1.args.scope.start <= verif_it_1.cur, 1 <= verif_it_1.width <= 2,
+                    args.scope.start <= start < args.scope.end,
+                    before == count_present(args.item_state@, start as int, original_scope.end as int),
+                decreases (if g_retried { 0int } else { 1int }), this_arg.scope.end,
+//@@ insert before 1 `match self.inner.eval(&mut this_arg) {`
+let ghost g_before_eval = this_arg;
+//@@ insert after 1 `this_arg.set_scope(adj_scope);`
+proof {
+    // the new scope ends at the first item neither this attempt nor anybody before it consumed
+    let m = choose|m: int| run_split(*args, start as int, m, g_before_eval.scope.end as int);
+    let off = adj_scope.end as int;
+    assert forall|i: int| g_before_eval.scope.end <= i < off implies !present(#[trigger] args.item_state[i]) by {
+        assert(!both_present(g_post, *args, i));
+    }
+    if off <= m { assert(run_split(*args, start as int, off, off)); } else { assert(run_split(*args, start as int, m, off)); }
+    g_retried = true;
+}
+//@@ insert before 1 `if let Some(adj_scope) = this_arg.adjacent_scope(args) {`
+let ghost g_post = this_arg;
+//@@ insert before 1 `let consumed = before - this_arg.len();`
+proof {
+    lemma_step_trans(*args, g_before_eval, this_arg);
+    let l = args.item_state@;
+    let e = this_arg.scope.end as int;
+    lemma_count_mono(l, this_arg.item_state@, start as int, e);
+    if e <= original_scope.end {
+        lemma_count_split(l, start as int, e, original_scope.end as int);
+    } else {
+        lemma_count_split(l, start as int, original_scope.end as int, e);
+        lemma_count_holes(l, original_scope.end as int, e);
+    }
+}
+//@@ insert before 1 `std::mem::swap(args, &mut this_arg);`
+let ghost g_m: int = choose|m: int| run_split(*args, start as int, m, g_before_eval.scope.end as int);
+let ghost g_led = this_arg.item_state@;
+let ghost g_pre = *args;
+proof {
+    lemma_step_trans(*args, g_before_eval, this_arg);
+    assert forall|i: int| start <= i < g_m implies !present(#[trigger] this_arg.item_state[i]) by {
+        assert(!both_present(this_arg, *args, i));
+    }
+    assert(consumed_block(*args, this_arg, start as int, g_m));
+    assert(consumed_block(g_pre, this_arg, start as int, g_m));
+    if g_m > original_scope.end { assert(present(args.item_state[original_scope.end as int])); }
+}
+//@@ insert before 1 `return Ok(res);`
+proof {
+    assert(args.item_state@ == g_led);
+    assert(g_pre == *old(args));
+    assert forall|i: int| 0 <= i < old(args).item_state.len() && present(#[trigger] old(args).item_state[i]) && !present(args.item_state[i]) implies start <= i < g_m by {
+        assert(present(g_pre.item_state[i]) && !present(g_led[i]));
+    }
+    assert forall|i: int| start <= i < g_m implies present(#[trigger] old(args).item_state[i]) && !present(args.item_state[i]) by {
+        assert(present(g_pre.item_state[i]) && !present(g_led[i]));
+    }
+    assert(consumed_block(*old(args), *args, start as int, g_m));
+}
+//@@ also fn meta external_body
 //@@ end
 
 // ---------------------------------------------------------------- feature = "autocomplete" only
